@@ -190,8 +190,62 @@ func Load(conf Config) (*Prog, error) {
 	if len(p.Funcs) < 500 {
 		return nil, fmt.Errorf("load: only %d in-scope functions (expected >= 500)", len(p.Funcs))
 	}
+	p.canonComparisons()
 	p.onceBodies()
 	return p, nil
+}
+
+// canonComparisons puts the operands of every comparison of the in-scope functions into one
+// canonical order (`a == b` and `b == a`, `a < b` and `b > a` are the same test and must be
+// the same thing to every rule): a constant goes to the right; otherwise the operand whose
+// description sorts first goes to the left, where local variables (whose names mean nothing)
+// sort after everything else and among themselves keep the order of the source.  The SSA
+// form is rewritten in place, before any engine reads it, so no rule sees the source order.
+func (p *Prog) canonComparisons() {
+	constLike := func(v ssa.Value) bool {
+		for {
+			switch x := v.(type) {
+			case *ssa.MakeInterface:
+				v = x.X
+			case *ssa.ChangeType:
+				v = x.X
+			case *ssa.ChangeInterface:
+				v = x.X
+			case *ssa.Convert:
+				v = x.X
+			case *ssa.Const:
+				return true
+			default:
+				return false
+			}
+		}
+	}
+	mask := func(v ssa.Value) string { return maskLocals(Desc(v)) }
+	for _, fn := range p.Funcs {
+		for _, b := range fn.Blocks {
+			for _, in := range b.Instrs {
+				bo, ok := in.(*ssa.BinOp)
+				if !ok {
+					continue
+				}
+				if _, cmp := swapOp[bo.Op]; !cmp {
+					continue
+				}
+				cx, cy := constLike(bo.X), constLike(bo.Y)
+				swap := false
+				switch {
+				case cx && !cy:
+					swap = true
+				case !cx && cy:
+				default:
+					swap = mask(bo.X) > mask(bo.Y)
+				}
+				if swap {
+					bo.X, bo.Y, bo.Op = bo.Y, bo.X, swapOp[bo.Op]
+				}
+			}
+		}
+	}
 }
 
 // CG returns the VTA call graph (built lazily).
